@@ -180,7 +180,8 @@ def run(ctx):
         for i, (desc, o0) in enumerate(meta):
             axes = reps[3 * i:3 * i + 3]
             model_ok = all(r.startswith("ok") for r in axes)
-            zero = any(r == "err zerodiv" for r in axes)
+            # the code tests the factors of all three axes before it divides
+            zero = any(r == "err zerodiv" for r in axes) and not any(r == "err factor" for r in axes)
             impl_ok = o0[0] == "ok"
             if model_ok != impl_ok:
                 ctx.corr_mismatch("pyramid-outcome", desc, o0[0] + (":" + str(o0[1]) if o0[0] == "err" else ""),
